@@ -571,6 +571,43 @@ NOINST int __wrap_usleep(unsigned int us) {
 	}
 }
 
+/* ------------------------------------------------------------------ simulated serial device
+ * bidib_start_serial() opens a tty and polls it with read(2). The device name "/dev/simbus" is served by the simulated bus instead: the library's
+ * open/read/write/close are interposed at link time (only references from the library and harness objects are affected), everything else passes through. */
+#include <sys/types.h>
+int __real_open(const char *path, int flags, ...);
+ssize_t __real_read(int fd, void *buf, size_t n);
+ssize_t __real_write(int fd, const void *buf, size_t n);
+int __real_close(int fd);
+static volatile int sim_fd = -1;
+NOINST int __wrap_open(const char *path, int flags, ...) {
+	mode_t mode = 0;
+	if (flags & O_CREAT) { va_list ap; va_start(ap, flags); mode = (mode_t)va_arg(ap, int); va_end(ap); }
+	if (path && !strcmp(path, "/dev/simbus")) {
+		int fd = __real_open("/dev/null", O_RDWR);
+		sim_fd = fd;
+		ev("\"e\":\"serial_open\",\"fd\":%d", fd);
+		return fd;
+	}
+	return __real_open(path, flags, mode);
+}
+NOINST ssize_t __wrap_read(int fd, void *buf, size_t n) {
+	if (fd >= 0 && fd == sim_fd && n >= 1) {
+		int ok = 0; uint8_t b = bus_read_cb(&ok);
+		if (ok) { *(uint8_t *)buf = b; return 1; }
+		errno = EAGAIN; return -1;
+	}
+	return __real_read(fd, buf, n);
+}
+NOINST ssize_t __wrap_write(int fd, const void *buf, size_t n) {
+	if (fd >= 0 && fd == sim_fd) { bus_write_cb((uint8_t *)buf, (int32_t)n); return (ssize_t)n; }
+	return __real_write(fd, buf, n);
+}
+NOINST int __wrap_close(int fd) {
+	if (fd >= 0 && fd == sim_fd) { sim_fd = -1; ev("\"e\":\"serial_close\",\"fd\":%d", fd); }
+	return __real_close(fd);
+}
+
 /* ------------------------------------------------------------------ log sink */
 #define LOGRING 128
 static char logring[LOGRING][256];
